@@ -115,3 +115,61 @@ Definition A (u : bool) (ip : str) (p : Z) : addr := {| a_udp := u; a_ip := ip; 
 Definition H (s d : option addr) (loc : bool) (v : N) (tlv unk : str) : header :=
   {| h_src := s; h_dst := d; h_local := loc; h_version := v; h_tlvs := tlv; h_unknown := unk |}.
 Definition H0 : header := H None None false 0 [] [].
+
+(* ---- compact v2 sweep: the input is a function of (version/command byte, family byte, length, seed) computed on
+   both sides, so that the 256 x 256 x lengths product stays small enough to evaluate in the kernel *)
+Definition caddr := (bool * N * Z)%type.
+Record vcase := V {
+  vc_vc : N; vc_fam : N; vc_len : N; vc_seed : N;
+  vc_ok : bool; vc_local : bool; vc_src : option caddr; vc_dst : option caddr;
+  vc_tlv_len : N; vc_tlv_sum : N; vc_consumed : N
+}.
+
+Fixpoint gen_from (k : nat) (i : N) (seed : N) : str :=
+  match k with O => [] | S k' => ((i * 7 + seed) mod 251) :: gen_from k' (i + 1) seed end.
+Definition gen_bytes (seed : N) (n : nat) : str := gen_from n 0 seed.
+Definition v2_payload : str := b "GET /".
+Definition vcase_input (c : vcase) : str :=
+  V2_SIG ++ [vc_vc c; vc_fam c; vc_len c / 256; vc_len c mod 256] ++ gen_bytes (vc_seed c) (N.to_nat (vc_len c)) ++ v2_payload.
+
+Definition ip_to_N (ip : str) : N := fold_left (fun acc x => acc * 256 + x) ip 0.
+Fixpoint n2bytes (k : nat) (n : N) (acc : str) : str :=
+  match k with O => acc | S k' => n2bytes k' (n / 256) (n mod 256 :: acc) end.
+Fixpoint tlv_sum_from (i : N) (s : N) (l : str) : N :=
+  match l with [] => s | x :: r => tlv_sum_from (i + 1) (s + x * (i + 1)) r end.
+Definition tlv_sum (l : str) : N := tlv_sum_from 0 0 l.
+
+Definition caddr_matches (a : option addr) (c : option caddr) : bool :=
+  match a, c with
+  | Some a, Some (u, n, p) => Bool.eqb (a_udp a) u && (ip_to_N (a_ip a) =? n) && Nat.eqb (length (a_ip a)) 16 && Z.eqb (a_port a) p
+  | None, None => true
+  | _, _ => false
+  end.
+Definition expand (c : option caddr) : option addr :=
+  match c with Some (u, n, p) => Some (A u (n2bytes 16 n []) p) | None => None end.
+
+Definition vcase_model_ok (c : vcase) : bool :=
+  let inp := vcase_input c in
+  match read_flat src_cfg inp with
+  | Ok h rest =>
+      vc_ok c && Bool.eqb (h_local h) (vc_local c) && caddr_matches (h_src h) (vc_src c) && caddr_matches (h_dst h) (vc_dst c) &&
+      (N.of_nat (length (h_tlvs h)) =? vc_tlv_len c) && (tlv_sum (h_tlvs h) =? vc_tlv_sum c) && (h_version h =? 2) &&
+      (consumed_of (length inp) (Some rest) =? vc_consumed c)
+  | Err _ rest => negb (vc_ok c) && (consumed_of (length inp) rest =? vc_consumed c)
+  end.
+
+Definition vcase_rcase (c : vcase) : rcase :=
+  {| r_in := vcase_input c; r_ok := vc_ok c;
+     r_hdr := H (expand (vc_src c)) (expand (vc_dst c)) (vc_local c) 2 [] [];
+     r_consumed := vc_consumed c |}.
+Definition vcase_prop_ok (c : vcase) : bool := rcase_prop_ok (vcase_rcase c).
+
+(* failing cases with their verdict, flattened: [index; verdict; index; verdict; ...] *)
+Fixpoint badv_from {A} (f : A -> N) (i : N) (l : list A) : list N :=
+  match l with
+  | [] => []
+  | x :: r => let v := f x in if v =? 0 then badv_from f (i + 1) r else i :: v :: badv_from f (i + 1) r
+  end.
+Definition badv {A} (f : A -> N) (l : list A) : list N := badv_from f 0 l.
+Definition vcase_verdict (c : vcase) : N := rcase_verdict (vcase_rcase c).
+Definition tcase_verdict (c : tcase) : N := 0.
